@@ -23,7 +23,7 @@ EXPLANATION = (
 )
 ASSUMPTIONS = [
     "multiprocessing.Queue.empty() is exact (feeder-thread lag of the real queue is outside)",
-    "environment events happen at tick boundaries (sleep) and, for slow exits, inside a bounded join",
+    "environment events happen at tick boundaries (sleep), for slow exits inside a bounded join, and (early cases) once right after a replacement was started",
     "signals are delivered through the handlers the manager registered",
 ]
 TRUSTED = ["fake Process/Queue/Event/os/signal in vt/props/_pm.py", "z3 5.1", "vt.sym explorer"]
@@ -40,16 +40,21 @@ def cases(tier: str) -> List[Any]:
         for w, d in ((1, 4), (2, 4), (3, 3)):
             for first in range(len(_pm.SIGNAL_OPTS)):
                 out.append({"workers": w, "depth": d, "first": first})
+        for first in range(len(_pm.SIGNAL_OPTS)):
+            out.append({"workers": 2, "depth": 3, "first": first, "early": True})
     else:
         for w, d in ((1, 6), (2, 5), (3, 4)):
             for first in range(len(_pm.SIGNAL_OPTS)):
                 out.append({"workers": w, "depth": d, "first": first})
+        for w, d in ((1, 5), (2, 4)):
+            for first in range(len(_pm.SIGNAL_OPTS)):
+                out.append({"workers": w, "depth": d, "first": first, "early": True})
     return out
 
 
 def explore_one(c: sym.Ctx, case: Dict[str, Any]) -> Any:
     mf = c.int("max_fails")
-    return _pm.run(c, case["workers"], case["depth"], mf, first=case.get("first")), mf
+    return _pm.run(c, case["workers"], case["depth"], mf, first=case.get("first"), early_death=bool(case.get("early"))), mf
 
 
 def harness(c: sym.Ctx, case: Dict[str, Any]) -> None:
